@@ -931,44 +931,6 @@ T_STRINGS = ["", "0", "00", "0000", "1f", "1f80", "1f8001", "bf20", "BF20", "308
              "3g", "g", "30,80", "0x30", "30 80 zz", "-1", "3\x7f", "30é", "a" * 5000, "1f" + "8" * 4999, "30 " * 3000, "f" * 20001]
 
 
-def big_negative_integer(x):
-    """input shape of finding C20-itoa-shift: somewhere in x the octets of a primitive [UNIVERSAL 2] or
-    [UNIVERSAL 10] (tag and length in any form) with 9..16 contents octets, all present, whose value is below
-    LONG_MIN - the only way print_V reaches line 125 of asn1p_integer.c.  Every offset is tried: unber reads a
-    stream and descends into containers whose announced length exceeds the file, where walk() stops."""
-    n = len(x)
-    for o in range(n - 10):
-        if x[o] & 0xe0:
-            continue                                  # universal, primitive
-        p = o + 1
-        num = x[o] & 0x1f
-        if num == 0x1f:
-            num = 0
-            while p < n and p - o < 8:
-                num = (num << 7) | (x[p] & 0x7f)
-                p += 1
-                if not x[p - 1] & 0x80:
-                    break
-            else:
-                continue
-        if num not in (2, 10) or p >= n:
-            continue
-        ln = x[p]
-        p += 1
-        if ln & 0x80:
-            k = ln & 0x7f
-            if k == 0 or k > 8 or p + k > n:
-                continue
-            ln = int.from_bytes(x[p:p + k], "big")
-            p += k
-        if 9 <= ln <= 16 and p + ln <= n and int.from_bytes(x[p:p + ln], "big", signed=True) < -2**63:
-            return True
-    return False
-
-
-ITOA_SHIFT_RE = re.compile(r"^\S*libasn1parser/asn1p_integer\.c:125:\d+: runtime error: left shift of 1 by 127 places cannot be represented in type '__int128'\s*\n\s*#0 0x[0-9a-f]+ in asn1p_itoa_s ", re.M)
-
-
 def modes_stage(run, rng, cases, typed_docs, unber, asan, model, tmpdir, quick):
     """runs the other modes; returns counters for the evidence"""
     tier = "quick" if quick else "thorough"
@@ -1137,24 +1099,6 @@ def modes_stage(run, rng, cases, typed_docs, unber, asan, model, tmpdir, quick):
         elif rex is not None and (rex != aex or not same):
             bad = ("plain and sanitizer builds of unber behave differently (%s / %s, same stdout: %s)" % (rex, aex, same), aerr or rerr)
         if bad:
-            plain_fine = rex is None or rex == "OK" or rex.startswith("DIAG")
-            # finding C20-t-leak: -t only; LeakSanitizer only; the one block of decode_tlv_from_hex_string (strlen + 1 octets); the plain build is fine
-            if (mode == "-t" and arc == 77 and "ERROR: LeakSanitizer" in aerr and "ERROR: AddressSanitizer" not in aerr and "runtime error" not in aerr
-                    and re.search(r"SUMMARY: AddressSanitizer: %d byte\(s\) leaked in 1 allocation\(s\)" % (len(args[1].encode("utf-8", "surrogateescape")) + 1), aerr)
-                    and re.search(r"#1 0x[0-9a-f]+ in decode_tlv_from_hex_string ", aerr) and aerr.count("leak of") == 1 and plain_fine and rex is not None):
-                run.count("mode:-t:known-leak")
-                run.known_finding("C20-t-leak", args[1][:80])
-                continue
-            # finding C20-itoa-shift: UBSan's shift report at asn1p_integer.c:125 in asn1p_itoa_s and nothing else, on an input holding an
-            # INTEGER/ENUMERATED of 9..16 octets below LONG_MIN; never in -p mode; the plain build is fine
-            seen_x = x
-            if x is not None and "-s" in args:
-                seen_x = x[int(args[args.index("-s") + 1]):]
-            if (x is not None and "-p" not in args and arc == 78 and ITOA_SHIFT_RE.search(aerr) and aerr.count("runtime error") == 1 and "AddressSanitizer" not in aerr
-                    and plain_fine and big_negative_integer(seen_x)):
-                run.count("mode:known-itoa-shift")
-                run.known_finding("C20-itoa-shift", h[:120])
-                continue
             run.violation("oracle:memory-safety", dict(rp, what="unber %s: %s" % ("(%s mode)" % mode, bad[0]), exit=rex, asan_exit=aex, stderr=clip(bad[1])))
             continue
         if mode == "usage":
